@@ -410,6 +410,8 @@ class ParseHeaders(Contract):
         ("headers-in-order", lambda L: _hdrs(L, lambda seq, a, b: _ordered(seq))),
         ("count<=limit", lambda L: _hdrs(L, lambda seq, a, b: seq.hi <= L.fentry.obj(L.self).fields["limit_request_fields"].t)),
         ("underscore-names-privileged", lambda L: _und_inv(L)),
+        ("count<=fields-seen", lambda L: _hdrs(L, lambda seq, a, b: seq.hi <= L.nfields.t)),
+        ("fields-seen<=limit", lambda L: L.nfields.t <= L.fentry.obj(L.self).fields["limit_request_fields"].t),
     ] + [("hdr:" + nm, (lambda k: (lambda L: _hdrs(L, lambda seq, a, b: _each(seq, a, b, k))))(k))
          for k, nm in enumerate(["bounds", "line-end", "name-is-token", "colon-follows-name", "value-bounds",
                                  "only-OWS-trimmed-left", "value-has-no-NUL-CR-LF"])] + [
